@@ -20,9 +20,9 @@ def count(kind, shape, doc):
     return n + c
 
 
-def render_ob(prefix, kind, shape, doc, L, timeout=300):
-    return vf.CH(f"{prefix} render {kind} {shape} doc-shapes={tuple(doc)} L={L}", "render.py",
-                 dict(KIND=kind, SHAPE=shape, DOC=tuple(doc), L=L, NCP=count(kind, shape, doc) * L),
+def render_ob(prefix, kind, shape, doc, L, timeout=300, fill=""):
+    return vf.CH(f"{prefix} render {kind} {shape} doc-shapes={tuple(doc)} L={L}" + (f" +{len(fill)}-char filler" if fill else ""), "render.py",
+                 dict(KIND=kind, SHAPE=shape, DOC=tuple(doc), L=L, NCP=count(kind, shape, doc) * L, FILL=fill),
                  timeout=timeout, encodes=ENC,
                  symbolic="every name / parameter / value / type / doc-line word (exactly L arbitrary code points each, no LF/CR); boolean fields (kwargs, macro, EXPECTFAIL)",
                  bound=f"entry kind {kind}, shape {shape}, doc lines of shapes {[SHAPE_NAMES[i] for i in doc]}, every piece exactly {L} chars")
